@@ -237,7 +237,7 @@ def run(ctx):
     corpus_run(ctx)
     if ctx.violations:
         return
-    explore(ctx, rng, ctx.budget(700, 12000), "random")
+    explore(ctx, rng, ctx.budget(2000, 20000), "random")
 
 
 def corpus_run(ctx):
